@@ -225,39 +225,43 @@ theorem bound_fails_lying_pledge (x : ByteArray) (hx : x.size = 1000) :
 
 /-- no block is stored larger than a raw block of its content: RLE blocks stand for at least one byte, and the body of a compressed
 block is smaller than its content (`cSize < srcSize`; ZSTD_compressBlock_internal / ZSTD_isRLE guarantee it by emitting the block raw
-otherwise: `if (cSize == 0 …) cSize = ZSTD_noCompressBlock(…)`, with `cSize = 0` when `maxCSize = srcSize - minGain` is reached) -/
-def Shrinks : List BlockChoice2 → Rep.R → Prop
-  | [], _ => True
-  | .raw _ :: rest, rep => Shrinks rest rep
-  | .rle _ n :: rest, rep => 1 ≤ n ∧ Shrinks rest rep
-  | .compressed c t lits raws :: rest, rep =>
-    (serializeBlockBody c lits t (storeAll rep raws).1).size < parseLen lits raws ∧ Shrinks rest (storeAll rep raws).2
+otherwise: `if (cSize == 0 …) cSize = ZSTD_noCompressBlock(…)`, with `cSize = 0` when `maxCSize = srcSize - minGain` is reached).
+`prev` = the resolved table decisions of the last block with sequences, threaded by `BlockEnc.nextTables` as `serializeBlocks2`
+threads it: the body of a block that describes its tables (`set_compressed`) counts the description, one that repeats them does not. -/
+def Shrinks (bs : List BlockChoice2) (rep : Rep.R) (prev : Option Tables := none) : Prop :=
+  match bs with
+  | [] => True
+  | .raw _ :: rest => Shrinks rest rep prev
+  | .rle _ n :: rest => 1 ≤ n ∧ Shrinks rest rep prev
+  | .compressed c t lits raws :: rest =>
+    (serializeBlockBody c lits t (storeAll rep raws).1 (prev.getD {})).size < parseLen lits raws ∧
+      Shrinks rest (storeAll rep raws).2 (nextTables prev t (storeAll rep raws).1)
 
 /-- content bytes a block list stands for -/
 def contentLen (bs : List BlockChoice2) : Nat := (bs.map BlockChoice2.len).sum
 
-theorem serializeBlocks2_size_le (x : ByteArray) : ∀ (bs : List BlockChoice2) (pos : Nat) (rep : Rep.R), Shrinks bs rep →
-    (serializeBlocks2 x bs pos rep).size ≤ 3 * bs.length + contentLen bs := by
+theorem serializeBlocks2_size_le (x : ByteArray) : ∀ (bs : List BlockChoice2) (pos : Nat) (rep : Rep.R) (prev : Option Tables),
+    Shrinks bs rep prev → (serializeBlocks2 x bs pos rep prev).size ≤ 3 * bs.length + contentLen bs := by
   intro bs
   induction bs with
-  | nil => intro _ _ _; simp [serializeBlocks2, contentLen]
+  | nil => intro _ _ _ _; simp [serializeBlocks2, contentLen]
   | cons c rest ih =>
-    intro pos rep hs
+    intro pos rep prev hs
     cases c with
     | raw n =>
-      have := ih (pos + n) rep hs
+      have := ih (pos + n) rep prev hs
       simp only [serializeBlocks2, noCompressBlock, ByteArray.size_append, FrameRT.blockHeader24_size, ByteArray.size_extract,
         List.length_cons, contentLen, List.map_cons, List.sum_cons, BlockChoice2.len] at this ⊢
       omega
     | rle b n =>
-      have := ih (pos + n) rep hs.2
+      have := ih (pos + n) rep prev hs.2
       have h1 := hs.1
       have hos : (ofList [b]).size = 1 := rfl
       simp only [serializeBlocks2, rleCompressBlock, ByteArray.size_append, FrameRT.blockHeader24_size, hos,
         List.length_cons, contentLen, List.map_cons, List.sum_cons, BlockChoice2.len] at this ⊢
       omega
     | compressed c t lits raws =>
-      have := ih (pos + parseLen lits raws) _ hs.2
+      have := ih (pos + parseLen lits raws) _ _ hs.2
       have h1 := hs.1
       simp only [serializeBlocks2, compressedBlock, ByteArray.size_append, FrameRT.blockHeader24_size,
         List.length_cons, contentLen, List.map_cons, List.sum_cons, BlockChoice2.len] at this ⊢
@@ -269,7 +273,7 @@ theorem serializeFrame2_size_le (a : HArgs) (bs : List BlockChoice2) (x : ByteAr
     (serializeFrame2 a bs x).size ≤
       (writeHeader a).length + contentLen bs + 3 * max 1 bs.length + (if a.checksum then 4 else 0) := by
   unfold serializeFrame2 epilogue
-  have := serializeBlocks2_size_le x bs 0 repStart hs
+  have := serializeBlocks2_size_le x bs 0 repStart none hs
   have hck : (if a.checksum = true then ofList (le4 ((XXH64.hashRange x 0 x.size).toNat &&& 0xFFFFFFFF)) else ByteArray.empty).size =
       if a.checksum then 4 else 0 := by
     cases a.checksum <;> rfl
@@ -323,25 +327,28 @@ theorem serialized_within_bound (a : HArgs) (bs : List BlockChoice2) (x : ByteAr
   omega
 
 /-- the tiling hypothesis of the round-trip theorems gives `contentLen bs = |x|` -/
-theorem contentLen_of_tiles2 (dc : ByteArray) (bsm : Nat) (x : ByteArray) : ∀ (bs : List BlockChoice2) (pos : Nat) (rep : Rep.R),
-    BlockRT.Tiles2 dc bsm x bs pos rep → pos + contentLen bs = x.size := by
+theorem contentLen_of_tiles2 (dc : ByteArray) (bsm : Nat) (x : ByteArray) : ∀ (bs : List BlockChoice2) (pos : Nat) (rep : Rep.R)
+    (prev : Option Tables), BlockRT.Tiles2 dc bsm x bs pos rep prev → pos + contentLen bs = x.size := by
   intro bs
   induction bs with
   | nil =>
-    intro pos rep h
-    have h2 : pos = x.size := h
+    intro pos rep prev h
+    have h2 : pos = x.size := by simpa only [BlockRT.Tiles2] using h
     simp only [contentLen, List.map_nil, List.sum_nil]; omega
   | cons c rest ih =>
-    intro pos rep h
+    intro pos rep prev h
     cases c with
     | raw n =>
-      have := ih _ _ h.2.2
+      simp only [BlockRT.Tiles2] at h
+      have := ih _ _ _ h.2.2
       simp only [contentLen, List.map_cons, List.sum_cons, BlockChoice2.len] at this ⊢; omega
     | rle b n =>
-      have := ih _ _ h.2.2.2
+      simp only [BlockRT.Tiles2] at h
+      have := ih _ _ _ h.2.2.2
       simp only [contentLen, List.map_cons, List.sum_cons, BlockChoice2.len] at this ⊢; omega
     | compressed c t lits raws =>
-      have := ih _ _ h.2.2.2.2.2.2.2
+      simp only [BlockRT.Tiles2] at h
+      have := ih _ _ _ h.2.2.2.2.2.2.2.2.2
       simp only [contentLen, List.map_cons, List.sum_cons, BlockChoice2.len] at this ⊢; omega
 
 /-- **round trip and bound together**: under the hypotheses of `BlockRT.frame_roundtrip_compressed` (`FrameOK2`), a frame whose blocks
@@ -349,7 +356,7 @@ shrink and are full but the last both decodes to `x` and fits ZSTD_compressBound
 theorem serialized_within_bound_of_frameOK2 (dc : ByteArray) (a : HArgs) (bs : List BlockChoice2) (x : ByteArray) (bsz : Nat)
     (hb : 808 ≤ bsz) (hok : BlockRT.FrameOK2 dc a bs x) (hs : Shrinks bs repStart) (hfull : FullBlocks bsz bs)
     (hx : x.size < ZSTD_MAX_INPUT_SIZE) : (serializeFrame2 a bs x).size ≤ compressBound x.size := by
-  have := contentLen_of_tiles2 dc _ x bs 0 repStart hok.2.2.2.2
+  have := contentLen_of_tiles2 dc _ x bs 0 repStart none hok.2.2.2.2
   exact serialized_within_bound a bs x bsz hb (by omega) hs hfull hx
 
 /-- non-vacuity: the demo frame of Lemmas/BlockRT.lean (a raw block and a compressed block with 11 body bytes for 13 content bytes) -/
